@@ -1,5 +1,6 @@
 import ZnVerif.Properties.C01
 import ZnVerif.Properties.C03
+import ZnVerif.Properties.C01Dispatch
 open ZnVerif.Properties.C01
 #print axioms and_short_circuit
 #print axioms or_short_circuit
@@ -31,3 +32,8 @@ open ZnVerif.Properties.C01
 #print axioms ZnVerif.Properties.C03.parse_tokens_roundtrip_partial
 #print axioms ZnVerif.Properties.C03.no_chain_of_comparisons_witness
 #print axioms ZnVerif.Properties.C03.synonym_tables
+
+-- regenerated tie: AST constant ↦ Go operation / helper in the operator functions of eval.go (Generated/OperatorDispatch.lean,
+-- extracted from $ZN_REPO on every run) = the dispatch Model.evalExpr implements
+#print axioms ZnVerif.Properties.C01Dispatch.operator_dispatch_as_modelled
+#print axioms ZnVerif.Properties.C01Dispatch.dispatch_inventory_nonempty
